@@ -115,6 +115,10 @@ func (g *govWorld) minterUpdate(r *kernel.Run, rng *kernel.Rng, authority string
 		return &mintertypes.MsgUpdateMintersParams{Authority: authority, StartTime: p.StartTime, Minters: p.Minters}
 	}
 	denom := cur.MintDenom
+	if rng.P(0.5) {
+		// switch the mint denomination: one that exists already, or one nobody holds yet (zero supply)
+		denom = []string{BondDenom, "aaa", "zzz", "unewmint"}[rng.Intn(4)]
+	}
 	return &mintertypes.MsgUpdateParams{Authority: authority, MintDenom: denom, StartTime: p.StartTime, Minters: p.Minters}
 }
 
